@@ -413,6 +413,11 @@ void generate_math_utility_builtins(StringBuilder *sb) {
     sb_append(sb, "    return result;\n");
     sb_append(sb, "}\n\n");
     
+    sb_append(sb, "/* String length as a nanolang int (signed, unlike strlen's size_t) */\n");
+    sb_append(sb, "static int64_t nl_str_length(const char* str) {\n");
+    sb_append(sb, "    return (int64_t)strlen(str);\n");
+    sb_append(sb, "}\n\n");
+
     sb_append(sb, "/* String contains */\n");
     sb_append(sb, "static bool nl_str_contains(const char* str, const char* substr) {\n");
     sb_append(sb, "    return strstr(str, substr) != NULL;\n");
